@@ -436,8 +436,30 @@ DirectIdx(u) == { <<li, kind, w, pos>> \in ({4, 1} \X (1..4) \X Widths \X PosSet
                     /\ (kind = 4 => w \in {4, 8})
                     /\ Keep(li + 3 * kind + 5 * w + 7 * (pos + 20)) }
 
+\* two accesses through the same base register and displacement: a narrow one that fits, then a
+\* wider one that sticks out of the region (a check remembered for "this address" must remember
+\* its width too); also through r10 directly
+PairProg(c, k1, w1, k2, w2, r, pos, off) ==
+  Flat( BaseSetup(c, r, pos, off) \o LddwSlots(4, V64[16])
+        \o << Mov64I(0, 0), AccInsn(k1, w1, off, 305419896), AccInsn(k2, w2, off, 305419896), ExitI >> )
+PairIdx(u) == { <<li, k1, w1, k2, w2, r, d>> \in ({1, 3, 4} \X (1..3) \X {1, 2, 4} \X (1..3) \X {2, 4, 8} \X {1, 2, 3} \X (1..7)) :
+                  /\ RegLen(li, r) > 0 /\ w1 < w2 /\ d >= w1 /\ d < w2      \* d = bytes left in the region at the access
+                  /\ Keep(li + 3 * k1 + 5 * w1 + 7 * k2 + 11 * w2 + 13 * r + 17 * d) }
+PairCaseOf(t) ==
+  LET c == LayoutCase(t[1]) IN
+  [c EXCEPT !.id = <<"pair">> \o t, !.fam = "bounds",
+            !.prog = PairProg(c, t[2], t[3], t[4], t[5], t[6], RegLen(t[1], t[6]) - t[7], 0)]
+PairDirect(k1, w1, k2, w2, d) ==
+  LET c == LayoutCase(4) IN
+  [c EXCEPT !.id = <<"pairdir", k1, w1, k2, w2, d, 0>>, !.fam = "bounds",
+            !.prog = Flat(LddwSlots(4, V64[16]) \o << Mov64I(0, 0), DirectInsn(k1, w1, -d, 305419896), DirectInsn(k2, w2, -d, 305419896), ExitI >>)]
+PairDirectIdx(u) == { <<k1, w1, k2, w2, d>> \in ((1..3) \X {1, 2, 4} \X (1..3) \X {2, 4, 8} \X (1..7)) :
+                        w1 < w2 /\ d >= w1 /\ d < w2 /\ Keep(k1 + 3 * w1 + 5 * k2 + 7 * w2 + 11 * d) }
+
 BoundsCases(u) ==
   NestedCases \cup
+  { PairCaseOf(t) : t \in PairIdx(u) } \cup
+  { PairDirect(t[1], t[2], t[3], t[4], t[5]) : t \in PairDirectIdx(u) } \cup
   { DirectCaseOf(t[1], t[2], t[3], t[4]) : t \in DirectIdx(u) } \cup
   { BoundsCaseOf(t) : t \in {x \in BoundsIdx(u) : BoundsOK(x) /\ Keep(HashB(x))} } \cup
   { AbsCaseOf(t[1], t[2], t[3], t[4]) :
